@@ -5,6 +5,16 @@ ROOT = os.path.dirname(os.path.dirname(os.path.abspath(__file__)))
 BASE_OFF = "cd /repo && env -u BUIDL_VERIF_TRACE /venv/bin/python -m pytest -ra -q -p no:cacheprovider --timeout=900 --continue-on-collection-errors"
 
 CLAIMED = {
+ "C04": dict(
+   text="TLC model-checks the wire-codec laws (round trip, witness stripping, txid independent of witness data / bound to every non-witness field) over every transaction reachable by a bounded number of API edits in a boundary-rich universe, and the fetcher/cache machine against every server answer; it then evaluates the TxWire specification on the logged fields and bytes of serialize/parse/id calls on random and boundary transactions (every push length, varint boundaries at 253/300 inputs and outputs, amounts to 2^64-1, large witness items) built through the real API; fetcher behaviours are replayed through TxFetcher.fetch with a stubbed server.",
+   design="3/C04",
+   note="Trusted: TLC, TxWire.tla as transcription of the Bitcoin wire format/BIP144, hashlib for hash256 rows, int.to_bytes in the harness for fixed-width fields. Legacy serialisations with zero inputs (BIP144 marker ambiguity) are out of scope. Inputs beyond the exhaustive bounds are sampled.",
+   technique="TLA+ wire-format specification: TLC model checking of codec laws + TLC evaluation of recorded serialize/parse/id calls + replay of fetcher model behaviours"),
+ "C05": dict(
+   text="TLC model-checks the Tx midstate memo as a state machine (all interleavings of edits and digest queries to depth 7: the never-invalidated policy is refuted, the repaired one satisfies freshness) and, for every digest query recorded inside random histories of queries and edits on real Tx objects (all standard input kinds, 7 hash types, key/script path, annex, out-of-range SINGLE), evaluates the Satoshi/BIP143/BIP341 preimage specification on the current snapshot as a hash term that the harness evaluates with hashlib and compares with the library's digest.",
+   design="3/C05, Appendix A.2",
+   note="Trusted: TLC, SigHash.tla as transcription of the three algorithms (Appendix A.2), hashlib (SHA-256, tagged hashes) for evaluating the exported terms. Standard script codes only (no OP_CODESEPARATOR). Histories and transactions are sampled beyond the model's bounds.",
+   technique="TLA+ preimage specification evaluated by TLC per recorded query (hash terms) + TLC model checking of the memo state machine"),
  "C07": dict(
    text="TLC model-checks the consensus reference machine (specs/script/Consensus.tla) against an implementation-shaped evaluator for every program up to a bound, evaluates the reference over complete finite opcode x stack / timelock / number-codec domains whose rows are each replayed through buidl.op (one implementation test per specification transition), and decides every opcode event and program verdict recorded from Script.evaluate on random structured programs of up to 40 operations. Exhaustive inside the stated bounds, sampled beyond.",
    design="3/C07, Appendix A.1",
